@@ -604,7 +604,12 @@ impl PathIssueManager {
         // Broadcast issue
         self.issue_broadcast_tx.send((id, marker.clone())).ok();
 
-        if self.cache.len() >= self.max_entries {
+        // Make room: queue entries of re-reported issues are stale and do not free a cache slot,
+        // so keep popping until both the cache and the queue are within bounds.
+        while !self.fifo_issues.is_empty()
+            && (self.cache.len() >= self.max_entries
+                || self.fifo_issues.len() >= self.max_entries)
+        {
             self.pop_front();
         }
 
